@@ -55,7 +55,17 @@ fn lex_ip_schemepart(source: &[char]) -> Option<usize> {
 }
 
 fn lex_login(source: &[char]) -> Option<usize> {
-    let hostport_start = if let Some(cred_end) = source.iter().position(|c| *c == '@') {
+    // Credentials can only appear in the authority component, which ends at the first `/` or
+    // at whitespace. (Searching the whole remaining text made the URL depend on an `@` anywhere
+    // later in the document.)
+    let authority_end = source
+        .iter()
+        .position(|c| *c == '/' || c.is_whitespace())
+        .unwrap_or(source.len());
+
+    let hostport_start = if let Some(cred_end) =
+        source[..authority_end].iter().position(|c| *c == '@')
+    {
         if let Some(pass_beg) = source[0..cred_end].iter().position(|c| *c == ':') {
             if !is_uchar_plus_string(&source[pass_beg + 1..cred_end]) {
                 return None;
